@@ -1,4 +1,5 @@
 """C06 - lazy (streaming) processing gives the same results as full loading."""
+import collections
 import io
 import os
 import tempfile
@@ -471,6 +472,7 @@ ROOTX_XSD = '''<xs:schema xmlns:xs="http://www.w3.org/2001/XMLSchema">
 <xs:element name="root" type="base"/>
 <xs:element name="g" type="xs:int"/>
 <xs:element name="open"><xs:complexType><xs:sequence><xs:any processContents="skip" minOccurs="0" maxOccurs="unbounded"/></xs:sequence></xs:complexType></xs:element>
+<xs:element name="laxo"><xs:complexType><xs:sequence><xs:any processContents="lax" minOccurs="0" maxOccurs="unbounded"/></xs:sequence></xs:complexType></xs:element>
 </xs:schema>'''
 
 
@@ -491,7 +493,21 @@ def run_rootx(spec, res):
             cases.append(('root-plain', f'<root>{a}</root>'))
             g = ''.join(f'<g>{rng.choice(("1", "abc"))}</g><other>{rng.choice(("1", "abc"))}</other>' for _ in range(rng.randint(1, 3)))
             cases.append(('skip-wildcard', f'<open>{g}</open>'))
+            # chunks admitted by a lax wildcard: declared ones (<g>) are validated, undeclared ones (<w>) are assessed laxly,
+            # i.e. their declared descendants are validated too
+            parts, direct_bad = [], 0
+            for _ in range(rng.randint(1, 4)):
+                v = rng.choice(('1', 'abc'))
+                if rng.random() < 0.5:
+                    parts.append(f'<g>{v}</g>')
+                    direct_bad += v == 'abc'
+                else:
+                    parts.append(f'<w><g>{v}</g></w>')
+            cases.append((('lax-wildcard', direct_bad), f'<laxo>{"".join(parts)}</laxo>'))
         for scenario, text in cases:
+            direct_bad = None
+            if isinstance(scenario, tuple):
+                scenario, direct_bad = scenario
             for thin in (True, False):
                 res.count('rootx:compared')
                 res.evaluations += 1
@@ -505,6 +521,9 @@ def run_rootx(spec, res):
                     mech = 'lazy-skips-children-that-exist-only-in-the-type-named-by-xsi-type-on-the-root'
                 elif scenario == 'skip-wildcard' and set(eager) <= set(lazy):
                     mech = 'lazy-validates-children-admitted-by-a-skip-wildcard'
+                elif scenario == 'lax-wildcard' and len(lazy) == direct_bad and not (collections.Counter(lazy) - collections.Counter(eager)):
+                    # every fault of a declared chunk is reported; only those inside undeclared chunks are missing
+                    mech = 'lazy-skips-undeclared-chunk-admitted-by-a-lax-wildcard'
                 else:
                     mech = 'lazy-differs:rootx:' + scenario
                 res.violation(mech, {'family': 'rootx', 'version': version, 'doc': text, 'thin': thin},
@@ -536,7 +555,8 @@ def replay(case):
         run_corpus({'tier': 'thorough', 'seed': 0}, res)
     else:
         cls = xmlschema.XMLSchema10 if case['version'] == '1.0' else xmlschema.XMLSchema11
-        schema = cls(D.family_xsd(case['family'], case['version']))
+        own = {'rootx': ROOTX_XSD, 'chunkns': CHUNKNS_XSD}
+        schema = cls(own[case['family']] if case['family'] in own else D.family_xsd(case['family'], case['version']))
         compare_document(res, xmlschema, schema, case['doc'], ('replay', ''), case, random.Random(0), 'thorough',
                          tempfile.mkdtemp(prefix='c06-'), 2)
     for v in res.violations:
